@@ -34,9 +34,29 @@ PROPS = {
     "C12": {
         "families": [("backpressure", 800, 30000), ("mailbox", 300, 8000)],
         "monitors": ["C12", "C12_nowait"],
-        "theorems": [],
+        "theorems": ["C12_bound", "C12_unbounded_never_parks", "C12_termination_unparks", "C12_queue_bound"],
         "nontrivial": nt_c12,
         "rule": "cases generated from (family, VERIF_SEED, index) by harness/src/gen.rs; non-trivial = the actor's mailbox is bounded and at least one waiting-path send returned later than the step that issued it (backpressure was exerted); distinct = distinct case JSON",
         "assumptions": ["'taken out of the mailbox' is witnessed by the handler entry that follows the dequeue in the same step, or by the end of the actor's task (receiver destroyed)"],
+    },
+}
+
+NOT_APPLICABLE = {}
+
+COMMON_NOTE = ("Trusted: Coq kernel; the hand-written model's fidelity (checked by the correspondence run on every check, "
+               "not proved); the harness (deterministic executor, event emission) and the cfg(hannibal_verif) shim; "
+               "extraction (ExtrOcamlBasic) and the OCaml driver; linearizability of futures-channel / Arc / async-lock. "
+               "No axioms. Real-thread races inside external crates and real wake-ups beyond the sampled cases are outside.")
+
+MANIFEST_TEXT = {
+    "C12": {
+        "text": "Theorem C12_bound (Coq, by simulation between the model and the property acceptor, no bound on actors, clients, "
+                "schedule or trace length): every execution the model accepts satisfies the backpressure bound; plus "
+                "C12_unbounded_never_parks, C12_termination_unparks, C12_queue_bound about every reachable state. The model is tied to the code "
+                "on every run: the real library is run on a deterministic executor over generated programs x schedules, the model "
+                "must accept every implementation trace, and the extracted acceptors chk_C12 / chk_C12_nowait are evaluated on the implementation traces themselves.",
+        "note": COMMON_NOTE,
+        "technique": "Rocq/Coq proof (invariant + simulation) over an executable model; correspondence by differential run of model and implementation",
+        "design_ref": "DESIGN.md section 6 C12",
     },
 }
